@@ -110,8 +110,8 @@ ax("wf-rw-shallow", L.FA(_t, z3.Implies(wf_rw(_t), z3.And(z3.Or(TY.wf_ty(_t), _t
 ax("wf-rw-args", L.FA([_t, _i], z3.Implies(z3.And(wf_rw(_t), 0 <= _i, _i < L.len_(TY.args(_t)), TY.has_args(_t)), wf_rw(L.nth(TY.args(_t), _i))),
                       [(wf_rw(_t), L.nth(TY.args(_t), _i))]))
 ax("wf-rw-td", L.FA([_t, _k], z3.Implies(z3.And(wf_rw(_t), TY.kind(_t) == TY.K["TD"]),
-                                          z3.And(z3.Implies(L.has(TY.td_req(_t), _k), wf_rw(L.get(TY.td_req(_t), _k))),
-                                                 z3.Implies(L.has(TY.td_opt(_t), _k), wf_rw(L.get(TY.td_opt(_t), _k))))),
+                                          z3.And(z3.Implies(L.has(TY.td_req(_t), _k), z3.And(wf_rw(L.get(TY.td_req(_t), _k)), L.get(TY.td_req(_t), _k) != TY.ELLIPSIS)),
+                                                 z3.Implies(L.has(TY.td_opt(_t), _k), z3.And(wf_rw(L.get(TY.td_opt(_t), _k)), L.get(TY.td_opt(_t), _k) != TY.ELLIPSIS)))),
                     [(wf_rw(_t), L.get(TY.td_req(_t), _k)), (wf_rw(_t), L.get(TY.td_opt(_t), _k))]))
 # Python >= 3.11: Tuple[()].__args__ == () (never ((),)); stated on the well-formedness predicate only
 ax("wf-rw-no-legacy-empty-tuple", L.FA(_t, z3.Implies(wf_rw(_t), TY.args(_t) != L.mk_tuple([L.EMPTY_SEQ])), [wf_rw(_t)]))
@@ -156,3 +156,8 @@ ax("wf-intro-Union", L.FA(_sq, z3.Implies(z3.And(L.len_(_sq) >= 1, _allty(_sq)),
 _allf = lambda d_: L.FA(_k, z3.Implies(L.has(d_, _k), _ty(L.get(d_, _k))), [L.get(d_, _k)])
 ax("wf-intro-TD", L.FA([_a, _b], z3.Implies(z3.And(_allf(_a), _allf(_b)), wf_rw(TY.TD_(_a, _b))), [TY.TD_(_a, _b)]))
 ax("empty-dict-no-keys", L.FA(_k, z3.Not(L.has(L.EMPTY_DICT, _k)), [L.has(L.EMPTY_DICT, _k)]))
+# derived from wf-rw-td + values-nth (stated for the values() view the rewriters iterate)
+ax("wf-rw-td-values-req", L.FA([_t, _i], z3.Implies(z3.And(wf_rw(_t), TY.kind(_t) == TY.K["TD"], 0 <= _i, _i < L.len_(TY.td_req(_t))),
+                                                    _ty(L.nth(L.dict_values(TY.td_req(_t)), _i))), [(wf_rw(_t), L.nth(L.dict_values(TY.td_req(_t)), _i))]))
+ax("wf-rw-td-values-opt", L.FA([_t, _i], z3.Implies(z3.And(wf_rw(_t), TY.kind(_t) == TY.K["TD"], 0 <= _i, _i < L.len_(TY.td_opt(_t))),
+                                                    _ty(L.nth(L.dict_values(TY.td_opt(_t)), _i))), [(wf_rw(_t), L.nth(L.dict_values(TY.td_opt(_t)), _i))]))
